@@ -145,6 +145,8 @@ fn engine_fixed_findings_stay_fixed() {
         ("F-ACK-CURRENT failing-pubrec", Box::new(|| ack_for_half_written_pubrel(true))),
         ("F-CONNACK-EARLY half-encoded", Box::new(|| connack_before_connect_flushed(true))),
         ("F-CONNACK-EARLY unflushed", Box::new(|| connack_before_connect_flushed(false))),
+        ("F-SLOWSTART-WIPED session-present", Box::new(|| slow_start_survives_failed_attempt(true))),
+        ("F-SLOWSTART-WIPED session-absent", Box::new(|| slow_start_survives_failed_attempt(false))),
     ];
     for (name, f) in runs.iter() {
         cases += 1;
@@ -154,7 +156,32 @@ fn engine_fixed_findings_stay_fixed() {
             Err(_) => fails.push(format!("{}: panicked", name)),
         }
     }
-    println!("BOUNDED engine_fixed_findings_stay_fixed cases={} bound=the recorded failing histories of the repaired engine findings (F-ACK-CURRENT, F-CONNACK-EARLY), one replay each", cases);
+    println!("BOUNDED engine_fixed_findings_stay_fixed cases={} bound=the recorded failing histories of the repaired engine findings (F-ACK-CURRENT, F-CONNACK-EARLY, F-SLOWSTART-WIPED), one replay each", cases);
     for f in &fails { println!("BOUNDED-FAIL engine_fixed_findings_stay_fixed {}", f); }
     assert!(fails.is_empty());
+}
+
+/// F-SLOWSTART-WIPED (C09): one-at-a-time drain; three QoS1 publishes in flight; disconnect; a connection attempt that opens and
+/// closes again before its CONNACK; then a successful reconnect that resumes the session: every interrupted publish must still
+/// be drained one at a time.
+fn slow_start_survives_failed_attempt(session_present: bool) -> Result<(), String> {
+    let mut c = cfg(); c.ack_timeout = None; c.drain = PostReconnectQueueDrainPolicy::OneAtATime;
+    let mut h = H::new(c);
+    h.connect(false, None).map_err(|e| format!("setup {:?}", e))?;
+    for _ in 0..3 { h.submit(Kind::Pub1); }
+    h.service(4096).unwrap(); h.write_completion().unwrap();
+    if h.ps.pending_publish_operations.len() != 3 { return Err("setup: three publishes should be in flight".into()); }
+    h.close().unwrap();
+    h.open().unwrap(); h.service(4096).unwrap(); h.write_completion().unwrap();     // CONNECT goes out ...
+    h.close().unwrap();                                                               // ... but the transport dies before CONNACK
+    h.connect(session_present, None).map_err(|e| format!("reconnect {:?}", e))?;
+    let mut worst = 0usize;
+    for _ in 0..8 {
+        h.service(4096).unwrap();
+        if h.ps.pending_write_completion { h.write_completion().unwrap(); }
+        let outstanding = h.ps.pending_publish_operations.len() + h.ps.pending_non_publish_operations.len();
+        worst = worst.max(outstanding);
+    }
+    if worst > 1 { return Err(format!("{} operations awaiting an acknowledgement at once while the interrupted ones are unresolved (one-at-a-time drain, session_present={})", worst, session_present)); }
+    Ok(())
 }
